@@ -285,6 +285,23 @@ def step (line : String) : String :=
   | ["gtrep", e1, e2] => match evalExpr evalTokT e1, evalExpr evalTokT e2 with
     | some a, some b => let e := b2s (a == b); s!"eq={e} qe={e} enc={e}"
     | _, _ => "bad-op"
+  -- a history of Equal calls: every answer is the equality of the two elements (`Equal` keeps no state)
+  | ["eqh", g, hist] =>
+    let one (pr : String) : Option String :=
+      match pr.splitOn "=" with
+      | [e1, e2] =>
+        match g with
+        | "g1" => match evalExpr evalTok1 e1, evalExpr evalTok1 e2 with
+          | some P, some Q => some s!"{b2s (equalG1 P Q)}{b2s (equalG1 Q P)}{b2s (marshalG1 P == marshalG1 Q)}"
+          | _, _ => none
+        | "g2" => match evalExpr evalTok2 e1, evalExpr evalTok2 e2 with
+          | some P, some Q => some s!"{b2s (equalG2 P Q)}{b2s (equalG2 Q P)}{b2s (marshalG2 P == marshalG2 Q)}"
+          | _, _ => none
+        | _ => none
+      | _ => none
+    match (hist.splitOn ";").mapM one with
+    | some outs => ";".intercalate outs
+    | none => "bad-op"
   -- one shared object, n goroutines: every answer is the element's (the model is pure)
   | ["par", "g1", e, _, _] => match evalExpr evalTok1 e with
     | some P => s!"enc={toHex (marshalG1 P)} bad=0"
